@@ -53,7 +53,7 @@ impl Property for C13 {
          oracle = brute force over EVERY lattice point of the box and EVERY integer slack value in the new variable's bounds, in exact rational arithmetic; non-trivial = converted, >=2 variables, both feasible and infeasible lattice points; distinct = sha256(instance, call)"
     }
     fn required_labels(&self) -> Vec<String> {
-        ["outcome=converted", "outcome=relaxed", "outcome=infeasible", "outcome=range-exceeded", "reject=unknown-id", "reject=equality", "reject=continuous", "rational-coeff", "quadratic", "op=convert", "op=add-slack", "other-constraints", "negative-box", "binary-variable", "unsorted-variable-list", "limit=needed", "limit=needed-1"].iter().map(|s| s.to_string()).collect()
+        ["outcome=converted", "outcome=relaxed", "outcome=infeasible", "outcome=range-exceeded", "reject=unknown-id", "reject=equality", "reject=continuous", "rational-coeff", "quadratic", "op=convert", "op=add-slack", "other-constraints", "negative-box", "binary-variable", "unsorted-variable-list", "limit=needed", "limit=needed-1", "second-conversion"].iter().map(|s| s.to_string()).collect()
     }
     fn cases(&self, tier: Tier) -> usize {
         match tier {
@@ -238,6 +238,15 @@ impl Property for C13 {
             ctx.label("other-constraints");
         }
         inst.objective = Some(crate::mk::fconst(0.0));
+        // a second, simple inequality x_first - lo_first <= 0 for the multi-step case (two conversions in a row)
+        let second_cid = cid + 7;
+        {
+            let mut o = v1::Constraint::default();
+            o.id = second_cid;
+            o.equality = LE_ZERO;
+            o.function = Some(crate::mk::flin(crate::mk::linear(vec![(vars[0].id, 1.0)], -(vars[0].lo as f64))));
+            inst.constraints.insert(0, o);
+        }
         // brute force on the original
         let pts = lattice(&vars);
         let vals: Vec<Q> = pts.iter().map(|p| fpoly.eval(&qpoint(p)).unwrap()).collect();
@@ -554,7 +563,54 @@ impl Property for C13 {
                         if nv >= 2 && both.0 && both.1 {
                             ctx.nontrivial();
                         }
-                        let _ = BTreeSet::<u64>::new();
+                        // multi-step: convert the second inequality on the same instance; its slack must be fresh
+                        // with respect to everything that exists now, including the first slack
+                        if vars[0].hi > vars[0].lo {
+                            ctx.label("second-conversion");
+                            let ids_now: BTreeSet<u64> = inst.decision_variables.iter().map(|v| v.id).collect();
+                            let n_now = inst.decision_variables.len();
+                            let r2 = if op_add { inst.add_integer_slack_to_inequality(second_cid, 3).map(|_| ()) } else { inst.convert_inequality_to_equality_with_integer_slack(second_cid, 1000) };
+                            if let Err(e) = r2 {
+                                return fail("C13/second-conversion/err", format!("second conversion (constraint {second_cid}: x{} - {} <= 0) failed: {e:#}: {}", vars[0].id, vars[0].lo, what()));
+                            }
+                            if inst.decision_variables.len() != n_now + 1 {
+                                return fail("C13/second-conversion/slack-variable-count", format!("second conversion did not add exactly one variable: {}", what()));
+                            }
+                            let s2 = inst.decision_variables.last().unwrap().clone();
+                            if ids_now.contains(&s2.id) {
+                                return fail("C13/second-conversion/slack-id-not-fresh", format!("second slack id {} collides with an existing variable (ids {:?}): {}", s2.id, ids_now, what()));
+                            }
+                            if s2.subscripts != vec![second_cid as i64] || s2.kind != KIND_INTEGER {
+                                return fail("C13/second-conversion/slack-tag", format!("second slack kind {} subscripts {:?}: {}", s2.kind, s2.subscripts, what()));
+                            }
+                            let Some(c2) = inst.constraints.iter().find(|c| c.id == second_cid) else {
+                                return fail("C13/second-conversion/constraint-lost", format!("second constraint disappeared: {}", what()));
+                            };
+                            let g2 = Poly::from_opt_function(&c2.function);
+                            let s2hi = s2.bound.as_ref().map(|b| b.upper).unwrap_or(-1.0);
+                            if !(0.0..=1e6).contains(&s2hi) {
+                                return fail("C13/second-conversion/slack-bound", format!("second slack bound {:?}: {}", s2.bound, what()));
+                            }
+                            for x in vars[0].lo..=vars[0].hi {
+                                let feas0 = x - vars[0].lo <= 0;
+                                let mut exists = false;
+                                for sv in 0..=(s2hi as i64) {
+                                    let mut st = QState::new();
+                                    st.insert(vars[0].id, qi(x));
+                                    st.insert(s2.id, qi(sv));
+                                    let Some(v) = g2.eval(&st) else {
+                                        return fail("C13/second-conversion/foreign-variable", format!("second constraint mentions other variables: {}: {}", g2.describe(), what()));
+                                    };
+                                    if if op_add { v <= tol } else { v.abs() < tol } {
+                                        exists = true;
+                                        break;
+                                    }
+                                }
+                                if feas0 != exists {
+                                    return fail("C13/second-conversion/feasible-set", format!("second conversion: x{} = {x} feasible={feas0} but slack exists={exists} in {}: {}", vars[0].id, g2.describe(), what()));
+                                }
+                            }
+                        }
                         let _ = Q::zero();
                         Ok(())
                     }
